@@ -1,11 +1,17 @@
-(* C03 - the ZINC reader accepts every legal spelling.  PARTIAL: proved for the document framing
-   (final newline optional, empty input), the CRLF / LF line end, upper and lower case T and Z,
-   the string / URI literal followed by anything, and the non-finite spellings; the other spellings are
-   covered by the model-implementation tie on the documents of the independent writer (harness/props/c03.py). *)
+(* C03 - the ZINC reader accepts every legal spelling.  Proved on the model of the reader: document framing (final
+   newline optional, empty input, several grids), CRLF / LF line ends, whole documents of either version with rows in any
+   spelling (blanks around commas and before the line end, empty cells), the spellings of numbers (digit separators,
+   exponents, non-finite), dates, times and timestamps (T or t, Z or z or a numeric offset, with or without a zone name),
+   string and URI literals followed by anything, lists and dicts with blanks and trailing commas, nested grids.
+   The header and column lines with blanks around the colons of their tags, around the commas and before the line
+   end are proved too.
+   PARTIAL: bytes input / charsets and the single flag are decided on the implementation; the interpretation of
+   timestamps (iso8601 / pytz) is covered by the model-implementation tie on the documents of the independent writer
+   (harness/props/c03.py). *)
 From Coq Require Import String.
 From Coq Require Import List NArith Bool.
 From HS Require Import Base.Prelude Model.Value Model.Escape Model.Version Model.Json Model.ZincParse.
-From HS Require Import Proofs.EscapeP Proofs.ZincParseP Proofs.ZincNumP Proofs.ZincDateP Proofs.ZincListP Proofs.ZincGridP Proofs.ZincDictP Proofs.ZincMetaP Proofs.ZincDocP Proofs.ZincNestP Proofs.ZincMultiP Proofs.ZincV2P Proofs.ZincSpacedP Proofs.ZincListSpP Proofs.ZincNumSpP.
+From HS Require Import Proofs.EscapeP Proofs.ZincParseP Proofs.ZincNumP Proofs.ZincDateP Proofs.ZincListP Proofs.ZincGridP Proofs.ZincDictP Proofs.ZincMetaP Proofs.ZincDocP Proofs.ZincNestP Proofs.ZincMultiP Proofs.ZincV2P Proofs.ZincSpacedP Proofs.ZincListSpP Proofs.ZincNumSpP Proofs.ZincDateTimeP Proofs.ZincDateTimeSpP Proofs.ZincDictSpP Proofs.ZincHeaderSpP Proofs.ZincTimeSpP.
 Import ListNotations.
 Open Scope N_scope.
 
@@ -130,6 +136,23 @@ Theorem C03_date_time_spellings : forall g ver3 rest, delim rest ->
   (forall y m d, valid_date y m d = true -> p_scalar (S g) ver3 (iso_date y m d ++ rest) = Some (Ok (VDate y m d), rest)) /\
   (forall h mi s us, time_ok h mi s us -> p_scalar (S g) ver3 (iso_time h mi s us ++ rest) = Some (Ok (VTime h mi s us), rest)).
 Proof. intros g ver3 rest Hd. split; intros; [apply scalar_date|apply scalar_time]; assumption. Qed.
+(* times with a fraction of seconds of one to six digits (more digits are refused: ValueError) *)
+Theorem C03_time_fraction : forall g ver3 h mi s fr rest, tfrac_ok h mi s fr -> delim rest ->
+  p_scalar (S g) ver3 (tfrac_text h mi s fr ++ rest) = Some (Ok (VTime h mi s (usec_of fr)), rest).
+Proof. exact scalar_time_frac. Qed.
+(* timestamps: T or t, Z or z or a numeric offset, with or without a zone name - every spelling is read, and two spellings
+   that differ only in the case of T and Z are read as the same value *)
+Theorem C03_timestamp_spellings : forall g ver3 y m d sep h mi s us o zn rest, dts_ok y m d sep h mi s us o -> zone_ok zn rest ->
+  p_scalar (S g) ver3 (dts_text y m d sep h mi s us o ++ ztext zn ++ rest) = Some (Ok (VDateTimeRaw (dts_val y m d h mi s us o) zn), rest).
+Proof. exact scalar_datetime_spelled. Qed.
+Theorem C03_timestamp_case_irrelevant : forall g ver3 y m d sep1 sep2 h mi s us o1 o2 zn rest,
+  dts_ok y m d sep1 h mi s us o1 -> dts_ok y m d sep2 h mi s us o2 -> ospell_val o1 = ospell_val o2 -> zone_ok zn rest ->
+  p_scalar (S g) ver3 (dts_text y m d sep1 h mi s us o1 ++ ztext zn ++ rest) = p_scalar (S g) ver3 (dts_text y m d sep2 h mi s us o2 ++ ztext zn ++ rest).
+Proof.
+  intros g ver3 y m d sep1 sep2 h mi s us o1 o2 zn rest H1 H2 E Hz.
+  rewrite (scalar_datetime_spelled g ver3 y m d sep1 h mi s us o1 zn rest H1 Hz), (scalar_datetime_spelled g ver3 y m d sep2 h mi s us o2 zn rest H2 Hz).
+  unfold dts_val. rewrite E. reflexivity.
+Qed.
 (* lists: elements in any spelling the scalar rule reads *)
 Theorem C03_lists : forall g vs ts rest, Forall2 (reads g) vs ts -> delim rest ->
   p_scalar (S (S g)) true (91 :: join [44] ts ++ 93 :: rest) = Some (Ok (VList vs), rest).
@@ -139,6 +162,37 @@ Proof. exact scalar_list. Qed.
 Theorem C03_list_spellings : forall g a v t vs ts tc b rest, readsd g v t -> Forall2 (readsd g) vs ts -> delim rest ->
   p_scalar (S (S g)) true (91 :: blanks a ++ join [44] (t :: ts) ++ lclose tc b rest) = Some (Ok (VList (v :: vs)), rest).
 Proof. exact scalar_list_spelled. Qed.
+
+(* the header line in other spellings: blanks before and after the colon of each metadata tag, blanks before the line end *)
+Theorem C03_header_spellings : forall g its e cols rows rts,
+  Forall (smitem_ok g) its -> NoDup (map fst (map skv its)) -> ~ In VERK (map fst (map skv its)) ->
+  cols_ok g cols ->
+  Forall2 (grid_row_ok g (map fst cols)) rows rts ->
+  p_grid (S (S g)) true (shtext its e ++ join [44] (map ctext cols) ++ 10 :: rows_text rts)
+  = Some (Ok (VGrid V30 (map skv its) (map (fun c => (fst c, map pkv (snd c))) cols)
+                    (map (fun cells => combine (map fst cols) cells) rows)), []).
+Proof. exact grid_spelled_header_reads. Qed.
+
+(* ... and the column line as well: column metadata spelled the same way, blanks around the commas between columns and
+   before the line end *)
+Theorem C03_header_and_column_spellings : forall g its e c (cs : list scitem) ce rows rts,
+  Forall (smitem_ok g) its -> NoDup (map fst (map skv its)) -> ~ In VERK (map fst (map skv its)) ->
+  Forall (scol_ok g) (allcols c cs) -> NoDup (map fst (allcols c cs)) ->
+  Forall (fun c0 : scol => NoDup (map fst (map skv (snd c0)))) (allcols c cs) ->
+  Forall2 (grid_row_ok g (map fst (allcols c cs))) rows rts ->
+  p_grid (S (S g)) true (shtext its e ++ sctext_line c cs ce ++ rows_text rts)
+  = Some (Ok (VGrid V30 (map skv its) (map (fun c0 : scol => (fst c0, map skv (snd c0))) (allcols c cs))
+                    (map (fun cells => combine (map fst (allcols c cs)) cells) rows)), []).
+Proof. exact grid_spelled_reads. Qed.
+
+(* dicts: blanks after the opening brace, after the colons, in runs between the tags and before the closing brace *)
+Theorem C03_dict_spellings : forall g a0 c0 p its b rest, pair_ok g p -> Forall (sitem_ok g) its ->
+  NoDup (map fst (pkv p :: map (fun i => pkv (snd i)) its)) -> delim rest ->
+  p_scalar (S (S g)) true (123 :: blanks a0 ++ sbody c0 p its b ++ 125 :: rest)
+  = Some (Ok (VDict (pkv p :: map (fun i => pkv (snd i)) its)), rest).
+Proof. exact scalar_dict_spelled. Qed.
+Theorem C03_empty_dict_spellings : forall g a rest, delim rest -> p_scalar (S (S g)) true (123 :: blanks a ++ 125 :: rest) = Some (Ok (VDict []), rest).
+Proof. exact scalar_dict_empty_spelled. Qed.
 
 Example C03_spellings :
   zparse_scalar true (s_ "1_000") = Ok (VNum NkFin (s_ "1000") (s_ "1000") None) /\
@@ -159,6 +213,13 @@ Print Assumptions C03_nested_grids.
 Print Assumptions C03_number_spellings.
 Print Assumptions C03_number_spellings_general.
 Print Assumptions C03_date_time_spellings.
+Print Assumptions C03_time_fraction.
+Print Assumptions C03_timestamp_spellings.
+Print Assumptions C03_timestamp_case_irrelevant.
+Print Assumptions C03_header_spellings.
+Print Assumptions C03_header_and_column_spellings.
+Print Assumptions C03_dict_spellings.
+Print Assumptions C03_empty_dict_spellings.
 Print Assumptions C03_lists.
 Print Assumptions C03_list_spellings.
 Print Assumptions C03_digit_separators.
